@@ -48,16 +48,17 @@ impl Property for C12 {
             knobs: Knobs { max_nodes: 24, max_ops: 12, variant, ..Default::default() },
         };
         match tier {
-            Tier::Quick => vec![mk("clone_node", 60_000, 0), mk("clone_with_prefixes", 400_000, 1), mk("cwp-stripped", 300_000, 3), mk("xot_clone", 20_000, 2), mk("clone_node-xml-decls", 40_000, 4)],
-            Tier::Thorough => vec![mk("clone_node", 600_000, 0), mk("clone_with_prefixes", 2_000_000, 1), mk("cwp-stripped", 1_500_000, 3), mk("xot_clone", 100_000, 2), mk("clone_node-xml-decls", 300_000, 4)],
+            Tier::Quick => vec![mk("clone_node", 60_000, 0), mk("clone_with_prefixes", 400_000, 1), mk("cwp-stripped", 300_000, 3), mk("xot_clone", 20_000, 2), mk("clone_node-xml-decls", 40_000, 4), mk("cwp-xml-rebound", 100_000, 5)],
+            Tier::Thorough => vec![mk("clone_node", 600_000, 0), mk("clone_with_prefixes", 2_000_000, 1), mk("cwp-stripped", 1_500_000, 3), mk("xot_clone", 100_000, 2), mk("clone_node-xml-decls", 300_000, 4), mk("cwp-xml-rebound", 600_000, 5)],
         }
     }
 
     fn check(&self, src: &mut Src, ctx: &mut Ctx) -> Verdict {
         match ctx.knobs.variant {
             0 | 4 => self.clone_node(src, ctx),
-            1 => self.clone_with_prefixes(src, ctx, false),
-            3 => self.clone_with_prefixes(src, ctx, true),
+            1 => self.clone_with_prefixes(src, ctx, false, false),
+            3 => self.clone_with_prefixes(src, ctx, true, false),
+            5 => self.clone_with_prefixes(src, ctx, false, true),
             _ => self.xot_clone(src, ctx),
         }
     }
@@ -204,7 +205,7 @@ impl C12 {
         Verdict::Pass
     }
 
-    fn clone_with_prefixes(&self, src: &mut Src, ctx: &mut Ctx, stripped: bool) -> Verdict {
+    fn clone_with_prefixes(&self, src: &mut Src, ctx: &mut Ctx, stripped: bool, rebound: bool) -> Verdict {
         let mut o = TreeOpts::xml(ctx.knobs.max_nodes);
         o.alpha = Alpha::Tiny;
         o.attr_alpha = Alpha::Tiny;
@@ -235,6 +236,35 @@ impl C12 {
                 }
             }
             strip(&mut doc, src);
+        }
+        if rebound {
+            // plan cwp-xml-rebound: the prefix xml declared as another namespace on some elements — a
+            // declaration nothing can be written with; the copy needs a real prefix for that namespace
+            fn rebind_xml(n: &mut ANode, src: &mut Src, top: bool) {
+                if let ANode::Element(e) = n {
+                    if src.ratio(1, if top { 2 } else { 5 }) {
+                        let u = ["urn:a", "urn:b", "urn:c"][src.choice(3)];
+                        e.decls.retain(|(p, _)| p != "xml");
+                        let at = src.choice(e.decls.len() + 1);
+                        e.decls.insert(at, ("xml".to_string(), u.to_string()));
+                    }
+                }
+                if let Some(ch) = n.children_mut() {
+                    for c in ch.iter_mut() {
+                        rebind_xml(c, src, false);
+                    }
+                }
+            }
+            if matches!(doc, ANode::Document(_)) {
+                if let Some(ch) = doc.children_mut() {
+                    for c in ch.iter_mut() {
+                        rebind_xml(c, src, true);
+                    }
+                }
+            } else {
+                rebind_xml(&mut doc, src, true);
+            }
+            ctx.label("xml_prefix_bound_to_another_namespace");
         }
         let mut xot = Xot::new();
         let mut hs = vec![];
